@@ -30,6 +30,7 @@ def replay_case(fl, case, expected, ctx=None, pid="C01", tie_ok=None):
     if case.get("shared"):
         share_components(e)
     bad = []
+    tied = frozenset()
     for k, row in enumerate(case["rows"], start=1):
         exp = expected.get(k)
         if exp is None:
@@ -55,11 +56,16 @@ def replay_case(fl, case, expected, ctx=None, pid="C01", tie_ok=None):
         if raised:
             bad.append((k, f"process() raised {raised}"))
             break
-        d = diff_obs(exp, observe(e))
-        if d and tie_ok is not None and d.startswith("output["):
+        # an output whose value was accepted as a broken tie in the previous row (C09) leaves the code's own value as previous value
+        d = diff_obs(exp, observe(e), skip_prev=tied)
+        now = set()
+        while d and tie_ok is not None and d.startswith("output["):
             o = int(d[7:d.index("]")])
-            if tie_ok(e, o, exp):
-                d = diff_obs(exp, observe(e), skip_out={o})
+            if o in now or not tie_ok(e, o, exp):
+                break
+            now.add(o)
+            d = diff_obs(exp, observe(e), skip_out=now, skip_prev=tied)
+        tied = frozenset(now)
         if d:
             bad.append((k, d))
             break  # later rows of a history depend on this one
